@@ -1063,6 +1063,13 @@ fn dial_in_transcript(s: &Swarm, dir: &PathBuf) -> Result<(Vec<String>, Vec<(Pat
 /// until the client is quiet for 400 ms or closes. Returns (bytes received before anything was
 /// sent, bytes received afterwards, connection closed by the client).
 pub fn dial_in_exchange(t: &crate::fixture::Torrent, dir: &PathBuf, chunks: Vec<Vec<u8>>) -> Result<(Vec<u8>, Vec<u8>, bool), String> {
+    dial_in_exchange_fin(t, dir, chunks, false).map(|(a, b, c, _)| (a, b, c))
+}
+
+/// As `dial_in_exchange`; with `fin` the dial-in peer shuts its sending side down after the last
+/// chunk (an orderly close, possibly in the middle of a message). Also returns the session's last
+/// published snapshot.
+pub fn dial_in_exchange_fin(t: &crate::fixture::Torrent, dir: &PathBuf, chunks: Vec<Vec<u8>>, fin: bool) -> Result<(Vec<u8>, Vec<u8>, bool, Option<rdest::verif::SessionSnap>), String> {
     use tokio::io::{AsyncReadExt, AsyncWriteExt};
     core::wipe_dir(dir);
     rdest::verif::clear_snapshots();
@@ -1103,15 +1110,20 @@ pub fn dial_in_exchange(t: &crate::fixture::Torrent, dir: &PathBuf, chunks: Vec<
             }
             tokio::time::sleep(std::time::Duration::from_millis(30)).await;
         }
+        if fin && !closed {
+            let _ = sock.shutdown().await;
+        }
         while !closed {
-            match tokio::time::timeout(std::time::Duration::from_millis(400), sock.read(&mut buf)).await {
+            match tokio::time::timeout(std::time::Duration::from_millis(if fin { 1500 } else { 400 }), sock.read(&mut buf)).await {
                 Ok(Ok(0)) | Ok(Err(_)) => closed = true,
                 Ok(Ok(n)) => after.extend_from_slice(&buf[..n]),
                 Err(_) => break,
             }
         }
+        tokio::time::sleep(std::time::Duration::from_millis(100)).await;
+        let snap = rdest::verif::session_snapshot();
         session_task.abort();
-        Ok::<_, String>((before, after, closed))
+        Ok::<_, String>((before, after, closed, snap))
     });
     rdest::verif::set_http(None);
     res
@@ -1145,6 +1157,17 @@ pub fn viewrun_main(args: &[String]) -> i32 {
     2
 }
 
+/// One seeder, pieces just over 2 MiB (tokio's file writes are chunked at 2 MiB): the in-memory fair
+/// continuation from the initial state, with every state invariant (incl. 'Have implies a stored
+/// verified piece') evaluated along the way and the output compared at the end.
+pub fn big_piece_run(dir: &PathBuf) -> Option<(&'static str, String)> {
+    let base = Swarm { label: "", piece_len: 5, files: vec![("f", 13)], single: true, owners: vec![], may_close: vec![], by_have: vec![], with_choke: false, with_interest: false, with_segmentation: false, ticks: 0, tie_breaks: false, races: false, same_addr: vec![], tracker_first: None, tracker_later: None, gated: false, focus: Focus::All, present_id_of: vec![], inert: vec![], refuse_after_close: vec![] };
+    let plen = (2 << 20) + 16384 + 5;
+    let s = Swarm { label: "e2e-pieces-over-2MiB-1seeder", piece_len: plen, files: vec![("f", plen + 70000)], single: true, owners: vec![own(2, &[0, 1])], may_close: vec![false], by_have: vec![false], ..base };
+    let (mut w, mut mon) = s.build(dir);
+    s.final_check(&mut w, &mut mon, false)
+}
+
 fn unseamed_part(ctx: &Ctx) -> (u64, Vec<Value>) {
     let dir = core::private_cwd("c02", "unseamed");
     core::set_quiet_panics(true);
@@ -1164,6 +1187,11 @@ fn unseamed_part(ctx: &Ctx) -> (u64, Vec<Value>) {
             }
             (a, b) => ctx.machinery_error(format!("unseamed replay of {} could not run: {:?} / {:?}", s.name(), a.err(), b.err())),
         }
+    }
+    n += 1;
+    match big_piece_run(&dir) {
+        None => rows.push(json!({"scenario": "e2e-pieces-over-2MiB-1seeder (in memory)", "completed": true})),
+        Some((class, why)) => ctx.violation(class, format!("[e2e-pieces-over-2MiB-1seeder] {}", &why[..why.len().min(500)]), json!({"scenario": "e2e-pieces-over-2MiB-1seeder", "kind": "bigpiece"})),
     }
     // the public entry point Session::run() (progress view included), in a subprocess whose stdout
     // is discarded: the fair continuation of each scenario from its initial state must complete
@@ -1239,6 +1267,19 @@ pub fn run(ctx: &Ctx) -> Outcome {
 
 pub fn replay(_ctx: &Ctx, r: &Value) -> i32 {
     let name = r["scenario"].as_str().unwrap();
+    if r["kind"] == "bigpiece" {
+        let dir = core::private_cwd("c02", "replay");
+        return match big_piece_run(&dir) {
+            None => {
+                println!("holds");
+                0
+            }
+            Some((class, why)) => {
+                println!("VIOLATION property=C02 replay=<this file>\n  class={} {}", class, why);
+                1
+            }
+        };
+    }
     if r["kind"] == "viewrun" {
         let exe = std::env::current_exe().expect("current_exe");
         let out = std::process::Command::new(&exe).args(["--probe", "viewrun", name]).stdout(std::process::Stdio::null()).output().expect("subprocess");
